@@ -144,7 +144,7 @@ def tokens_types(line):
 
 # ----------------------------------------------------------------------------------------------------------------
 # whole binary
-def make_config(d, name, cells, subgrids, periodic=(True, True, True), copy_level=None, sides=(20., 20., 20.), turbulence=False):
+def make_config(d, name, cells, subgrids, periodic=(True, True, True), copy_level=None, sides=(20., 20., 20.), turbulence=False, forcing_step="0.00002"):
     """a variant of harness/configs/hydro.param in directory d"""
     txt = open(os.path.join(CONFIGS, "hydro.param")).read()
     txt = txt.replace("number of cells: [18, 18, 18]", "number of cells: [%d, %d, %d]" % tuple(cells))
@@ -156,7 +156,7 @@ def make_config(d, name, cells, subgrids, periodic=(True, True, True), copy_leve
         txt = txt.replace("  random seed: 42", "  random seed: 42\n  source copy level: %d" % copy_level)
     if turbulence:
         txt = txt.replace("  random seed: 42", "  random seed: 42\n  turbulent forcing: true")
-        txt += "TurbulenceForcing:\n  time step: 0.00002 s\n  forcing power: 5.e9 m^2 s^-3\n  minimum wave number: 1.\n  maximum wave number: 3.\n"
+        txt += "TurbulenceForcing:\n  time step: %s s\n" % forcing_step + "  forcing power: 5.e9 m^2 s^-3\n  minimum wave number: 1.\n  maximum wave number: 3.\n"
     open(os.path.join(d, name), "w").write(txt)
 
 
@@ -502,6 +502,8 @@ def configs_for(tier_quick):
                       make=dict(cells=(15, 14, 8), subgrids=(3, 2, 2), copy_level=1)))
         C.append(dict(name="hydro 18^3 cells in 2x2x2 subgrids, periodic, turbulence forcing on (AlveliusTurbulenceForcing dumped), no copies", param="turb.param",
                       make=dict(cells=(18, 18, 18), subgrids=(2, 2, 2), copy_level=0, turbulence=True)))
+        C.append(dict(name="hydro 18^3 cells in 2x2x2 subgrids, periodic, turbulence forcing with a driving step every ~2.5 hydro steps (a driving step is due after some restarts and not after others)", param="turb2.param",
+                      make=dict(cells=(18, 18, 18), subgrids=(2, 2, 2), copy_level=0, turbulence=True, forcing_step="0.00005")))
         C.append(dict(name="hydro 21x6x10 cells in 3x2x2 subgrids on a 7 x 2.2 x 3.1 m box, periodic", param="geo4.param",
                       make=dict(cells=(21, 6, 10), subgrids=(3, 2, 2), sides=(7., 2.2, 3.1), copy_level=0)))
     return C
@@ -515,7 +517,10 @@ def differential(ck, b, exe, inv, sizes, suspects):
     ev = 0
     sigs = set()
     samples = []
-    for ci, cfg in enumerate(configs_for(ck.quick)):
+    # search-on-break: when the inventory / codec / component ties already broke, look for the concrete diverging run in the
+    # full configuration list (turbulence forcing, anisotropic box, ...) even in the quick tier
+    searching = bool(suspects or ck.breaks or getattr(ck, "c09_inventory_report", None))
+    for ci, cfg in enumerate(configs_for(ck.quick and not searching)):
         plans = [("A1", []), ("A2", [])] + [("k%d" % k, [k]) for k in range(1, N)]
         if not ck.quick:
             plans += [("c12", [1, 2]), ("c211", [2, 1, 1]), ("c31", [3, 1])]
@@ -652,6 +657,7 @@ def run(ck):
     if b["exe"]:
         tr = trace_tie(ck, b, exe)
         ev += tr
+        ck.c09_inventory_report = [r for r in rep if r not in handled]
         e, sig_diff, samples = differential(ck, b, exe, inv, sizes, suspects)
         ev += e
     nviol_concrete = len([v for v in ck.violations if not v["no_input"]])
